@@ -394,7 +394,12 @@ func (s Server) Serve(c context.Context, conn network.Conn) (err error) {
 		//
 		// NOTE: All middlewares and business handler will be executed in this. And at this point, the request has been parsed
 		// and the route has been matched.
-		s.Core.ServeHTTP(cc, ctx)
+		//
+		// A declined 'Expect: 100-continue' request is answered with the 417 set above and nothing else: its
+		// body was deliberately not read, so a handler would be shown a request without the body that belongs to it.
+		if continueReadingRequest {
+			s.Core.ServeHTTP(cc, ctx)
+		}
 		if s.EnableTrace {
 			// application layer handle finished
 			if last := eventsToTrigger.pop(); last != nil {
